@@ -38,8 +38,8 @@ CLAIMS = {
                 'unreachable under P-SUPPLY (totals <= 2^127). A call-site kernel discharges the precondition of the `expect` in '
                 'validate_and_get_doscmint_speed: check_tx_validity accepts no DoscMint transaction without inputs.',
         'design_ref': 'DESIGN.md §8 C09, §12',
-        'note': COMMON_NOTE + ' Partial: create_builtins / process_pegging / apply_tip_909 and the fee-multiplier step (C17) are not '
-                're-run here; termination is by construction of the kernels (folds over the batch) plus C11; dependencies other than '
+        'note': COMMON_NOTE + ' Partial: create_builtins and the fee-multiplier step (C17) are not re-run here (process_pegging and '
+                'apply_tip_909 are, on states holding the built-in pools with non-zero reserves); termination is by construction of the kernels (folds over the batch) plus C11; dependencies other than '
                 'the modelled melpow indexing are trusted not to panic. Two known findings (melpow verify, melstructs weight sum); two '
                 'defects found here were repaired (zero-total requests, requests against a pool with an empty reserve).',
         'technique': 'bounded symbolic execution of rustc MIR; panic paths decided by z3 (bit-vectors) and, for the settlement '
